@@ -19,7 +19,12 @@
 //!                         garbage-line | garbage-after-reply | unknown-status | wrong-var | double-status |
 //!                         double-status-unsat-first | crash | exit-code | zero-mid-model |
 //!                         truncated-model-after-minus | truncated-model-at-byte (with cut=<permille>) |
-//!                         non-utf8-comment (an honest reply preceded by a comment line that is not UTF-8)
+//!                         non-utf8-comment (an honest reply preceded by a comment line that is not UTF-8) |
+//!                         non-utf8-garbage-line (binary garbage before, inside or after an honest reply) |
+//!                         non-utf8-byte-in-value-line (first of two value lines torn by a stray byte)
+//!   exit=<n>|conv         exit status of the process: a number, or `conv` = the SAT-competition convention
+//!                         (10 satisfiable, 20 unsatisfiable, 0 undecided), computed from what msat *decided*,
+//!                         whatever the (possibly faulty) reply says; default 0 (3 for fault=exit-code)
 //!   lenient               accept a malformed instance (ignore header mismatches) instead of failing
 
 use std::io::{Read, Write};
@@ -39,6 +44,7 @@ struct Opts {
     slow_ms: u64,
     fault: Option<(String, Option<u64>)>,
     lenient: bool,
+    exit: Option<String>,
 }
 
 fn parse_opts() -> Opts {
@@ -56,6 +62,7 @@ fn parse_opts() -> Opts {
         slow_ms: 0,
         fault: None,
         lenient: false,
+        exit: None,
     };
     for a in std::env::args().skip(1) {
         if let Some(v) = a.strip_prefix("log=") {
@@ -84,6 +91,8 @@ fn parse_opts() -> Opts {
             o.crlf = true;
         } else if a == "lenient" {
             o.lenient = true;
+        } else if let Some(v) = a.strip_prefix("exit=") {
+            o.exit = Some(v.to_string());
         } else if let Some(v) = a.strip_prefix("mode=") {
             if let Some(ms) = v.strip_prefix("slow-read:") {
                 o.mode = "slow-read".to_string();
@@ -412,7 +421,7 @@ fn main() {
             // fault degrades to "no reply" so that msat fails to decide but never lies
             let needs_model = matches!(
                 k,
-                "status-only" | "truncated-model" | "truncated-model-midnumber" | "wrong-var" | "crash" | "zero-mid-model"
+                "status-only" | "truncated-model" | "truncated-model-midnumber" | "wrong-var" | "crash" | "zero-mid-model" | "non-utf8-byte-in-value-line"
                     | "truncated-model-after-minus" | "truncated-model-at-byte"
             );
             let k = if needs_model && verdict != Some(true) {
@@ -525,6 +534,54 @@ fn main() {
                         None => reply.extend_from_slice(format!("s UNKNOWN{}", eol).as_bytes()),
                     }
                 }
+                "non-utf8-garbage-line" => {
+                    // an honest reply with one line of binary garbage (neither comment, status nor values, and not
+                    // UTF-8) before it, between status and values, or after it
+                    let garbage: &[u8] = b"\x7fELF\x02\x01\xff\xfe core \xc3\x28\xa0\xa1";
+                    let place = (invocation + std::process::id() as u64) % 3;
+                    if place == 0 {
+                        reply.extend_from_slice(garbage);
+                        reply.extend_from_slice(eol.as_bytes());
+                    }
+                    match verdict {
+                        Some(true) => {
+                            reply.extend_from_slice(status_line(true).as_bytes());
+                            if place == 1 {
+                                reply.extend_from_slice(garbage);
+                                reply.extend_from_slice(eol.as_bytes());
+                            }
+                            reply.extend_from_slice(v_lines(&model, true).as_bytes());
+                        }
+                        Some(false) => reply.extend_from_slice(status_line(false).as_bytes()),
+                        None => reply.extend_from_slice(format!("s UNKNOWN{}", eol).as_bytes()),
+                    }
+                    if place != 0 && !(place == 1 && verdict == Some(true)) {
+                        reply.extend_from_slice(garbage);
+                        reply.extend_from_slice(eol.as_bytes());
+                    }
+                }
+                "non-utf8-byte-in-value-line" => {
+                    // the model on two value lines, the first one torn by a stray byte that is not UTF-8
+                    reply.extend_from_slice(status_line(true).as_bytes());
+                    let lits: Vec<i32> = if model.is_empty() { (1..=n_vars.max(1) as i32).collect() } else { model.clone() };
+                    let half = lits.len().div_ceil(2).max(1).min(lits.len());
+                    let mut first = String::from("v");
+                    for l in &lits[..half] {
+                        first.push_str(&format!(" {}", l));
+                    }
+                    let mut fb = first.into_bytes();
+                    let at = 2 + (fb.len() - 2) / 2;
+                    fb.insert(at, 0xff);
+                    reply.extend_from_slice(&fb);
+                    reply.extend_from_slice(eol.as_bytes());
+                    let mut second = String::from("v");
+                    for l in &lits[half..] {
+                        second.push_str(&format!(" {}", l));
+                    }
+                    second.push_str(" 0");
+                    reply.extend_from_slice(second.as_bytes());
+                    reply.extend_from_slice(eol.as_bytes());
+                }
                 "unknown-status" => reply.extend_from_slice(format!("s UNKNOWN{}", eol).as_bytes()),
                 "wrong-var" => {
                     reply.extend_from_slice(status_line(true).as_bytes());
@@ -589,14 +646,26 @@ fn main() {
                 libc::kill(libc::getpid(), libc::SIGKILL);
             }
         }
-        Some("exit-code") => std::process::exit(3),
+        Some("exit-code") if o.exit.is_none() => std::process::exit(3),
         _ => {}
     }
+    let exit_code: Option<i32> = match o.exit.as_deref() {
+        Some("conv") => Some(match verdict {
+            Some(true) => 10,
+            Some(false) => 20,
+            None => 0,
+        }),
+        Some(n) => n.parse().ok(),
+        None => None,
+    };
     if o.mode == "close-stdout-early" {
         drop(out);
         unsafe {
             libc::close(1);
         }
         std::thread::sleep(std::time::Duration::from_millis(200));
+    }
+    if let Some(c) = exit_code {
+        std::process::exit(c);
     }
 }
